@@ -77,7 +77,7 @@ _EVAL_TRUSTED = _OPS_TRUSTED + [
 _EVAL_ASSUME = ['the graph handed to the evaluator carries its BooleanNetwork (as_network() is Some) and its unit set satisfies the regulation constraints and does not constrain state or auxiliary variables (graphs built by get_extended_symbolic_graph)']
 
 PROPS['C01'] = {
-    'units': ['ops', 'eval'],
+    'units': ['ops', 'eval', 'api'],
     'level_text': ('Proof that the recursive evaluator eval_node returns, for every graph, every well-formed tree over all operators and every '
                    'context, a set that agrees with the HCTL semantics `sem` (spec/sem.rs, written from the statement: self-loops on states '
                    'without successors, least/greatest fixed points, bind/jump/exists/forall) inside the graph\'s unit set; every operator '
@@ -105,7 +105,7 @@ PROPS['C02'] = {
     'trusted': _EVAL_TRUSTED, 'assumptions': _EVAL_ASSUME,
 }
 PROPS['C03'] = {
-    'units': ['ops', 'eval'],
+    'units': ['ops', 'eval', 'api'],
     'level_text': ('Proof that every set returned by eval_node is a subset of the base graph\'s unit set (second half of the invariant `ok`), '
                    'for all graphs with constrained parameters and all formulae, and that every atomic evaluation (propositions, variables, constants) '
                    'is intersected with the unit set. Independence of closed results from the auxiliary variables is not yet a proved lemma.'),
@@ -175,8 +175,9 @@ PROPS['C07'] = {
 }
 
 PROPS['C04'] = {
-    'units': ['ops', 'eval'],
-    'functions': {'ops': ['substitute_hctl_var', 'create_comparator_two_vars', 'create_equalizer', 'project_out_hctl_var'], 'eval': ['eval_node']},
+    'units': ['ops', 'eval', 'api'],
+    'functions': {'ops': ['substitute_hctl_var', 'create_comparator_two_vars', 'create_equalizer', 'project_out_hctl_var'], 'eval': ['eval_node'],
+                  'api': ['_model_check_multiple_trees_dirty', 'model_check_multiple_trees_dirty', '_model_check_tree_dirty', 'model_check_tree_dirty']},
     'level_text': ('Proof of a representation invariant of the EvalContext (ctx_inv): every cached value is either a wild-card set or, for a ghost witness '
                    'tree with the same canonical key, agrees with the semantics of that tree inside the unit set it was computed on; every hit (with the '
                    'renaming of its at most one variable), every store and every counter update re-establishes it, so the result of eval_node agrees '
@@ -186,3 +187,20 @@ PROPS['C04'] = {
     'explanation': 'contracts/eval.ctr: hit path (witness extraction, loops over the two renaming maps with ghost iterators, lemma_hit_rename / lemma_hit_closed), store paths (lemma_store_entry), counters (ctx_inv clause 1), wild-card budget lemmas.',
     'trusted': _EVAL_TRUSTED, 'assumptions': _EVAL_ASSUME,
 }
+
+PROPS['C14'] = {
+    'units': ['api', 'front', 'lex', 'tree', 'eval', 'ops'],
+    'level_text': ('Partial, at proof level: (i) panic-freedom: every function under contract (tokenizer, parser, renamer, all operators, eval_node, '
+                   'the tree-based entry points, check_hctl_var_support) is verified with Verus\' built-in obligations for unwrap / unreachable! / indexing / '
+                   'integer overflow, under the stated preconditions; (ii) "error exactly when": parse_and_minimize_* return Err exactly when the text is '
+                   'outside the token language, the grammar does not derive it, a variable is free or re-quantified in its scope, or a proposition is not '
+                   'a network variable (preprocess_ok); check_hctl_var_support returns false exactly when the quantifier nesting depth exceeds the number '
+                   'of spare variable sets. The composition into the string-based model_check_* entry points, the wild-card / domain validation and the '
+                   'sanitising unwrap are not yet under contract.'),
+    'level_note': ('Assumed: wild-card counters cover the evaluations (budget_pre) -- defect D9 (a panic caused by inconsistent counters) was found by analysing '
+                   'exactly this assumption and repaired, but no registered check decides it; known findings D5 / D8 (a value depending on auxiliary variables makes '
+                   'the sanitising unwrap panic). Formulae shorter than 2^32 characters; stack depth is outside the model.'),
+    'explanation': 'See units lex / tree / front / api; spec/names.rs (binders, qdepth, cardinality of the name set).',
+    'trusted': _EVAL_TRUSTED, 'assumptions': _EVAL_ASSUME,
+}
+UNIT_TIMEOUT['api'] = 600
